@@ -27,7 +27,7 @@ CONSTANTS R,          \* replications requested (may be 0)
           K,          \* steps per stage
           Stages,     \* 3 in the program
           M,          \* value domain 0..M-1
-          Variant,    \* "spec" | "shallowClone" | "firstMax" | "unseeded"
+          Variant,    \* "spec" | "shallowClone" | "firstMax" | "unseeded" | "noTruncate"
           Faults      \* subset of {"none", "badArgs", "jsonFail", "svgFail"} the environment may choose
 
 Rep == 0..(R - 1)
@@ -36,6 +36,12 @@ None == -1
 \* deterministic proposal: depends on what was read, the seed, the stage and the step
 Prop(v, seed, s, k) == (v * 3 + seed + 2 * s + k) % M
 Score(v) == v     \* larger is better
+\* what is written for a result: a text whose length depends on the result
+Content(v) == [i \in 1..(v + 1) |-> v]
+OldFile == [i \in 1..(M + 3) |-> 99]
+\* writing without truncating: the new text over the beginning of the old one
+Overwrite(old, new) == [i \in 1..(IF Len(old) > Len(new) THEN Len(old) ELSE Len(new)) |->
+                          IF i <= Len(new) THEN new[i] ELSE old[i]]
 
 VARIABLES heap,     \* cell id -> value; cell 0 belongs to the input state
           cellOf,   \* replica -> its cell (None before the clone)
@@ -61,7 +67,9 @@ Init ==
   /\ seedOf = [r \in Rep |-> None]
   /\ fault \in Faults
   /\ phase = "map"
-  /\ best = None /\ logged = None /\ files = {} /\ code = None /\ msg = FALSE /\ ticket = 0
+  /\ best = None /\ logged = None /\ code = None /\ msg = FALSE /\ ticket = 0
+  \* the output path may already hold a file of an earlier run (here: longer than any new one)
+  /\ files \in { [names |-> {}, json |-> old] : old \in {<<>>, OldFile} }
 
 \* argument errors are detected before any work is started
 BadArgs ==
@@ -142,14 +150,17 @@ WriteJson ==
   /\ phase = "logged"
   /\ IF fault = "jsonFail"
      THEN phase' = "exit" /\ code' = 1 /\ msg' = TRUE /\ UNCHANGED files
-     ELSE phase' = "json" /\ files' = files \cup {"json"} /\ UNCHANGED <<code, msg>>
+     ELSE /\ phase' = "json" /\ UNCHANGED <<code, msg>>
+          /\ files' = [names |-> files.names \cup {"json"},
+                       json |-> IF Variant = "noTruncate" THEN Overwrite(files.json, Content(heap[cellOf[best]]))
+                                ELSE Content(heap[cellOf[best]])]
   /\ UNCHANGED <<heap, cellOf, st, stage, k, tmp, on, res, seedOf, fault, best, logged, ticket>>
 
 WriteSvg ==
   /\ phase = "json"
   /\ IF fault = "svgFail"
      THEN phase' = "exit" /\ code' = 1 /\ msg' = TRUE /\ UNCHANGED files
-     ELSE phase' = "exit" /\ code' = 0 /\ files' = files \cup {"svg"} /\ UNCHANGED msg
+     ELSE phase' = "exit" /\ code' = 0 /\ files' = [files EXCEPT !.names = @ \cup {"svg"}] /\ UNCHANGED msg
   /\ UNCHANGED <<heap, cellOf, st, stage, k, tmp, on, res, seedOf, fault, best, logged, ticket>>
 
 Next ==
@@ -176,6 +187,8 @@ Deterministic == \A r \in Rep : st[r] = "done" => res[r] = Reference(r)
 ReduceTreeIndependent == (phase = "map" /\ AllDone /\ R > 0) => Trees(0, R - 1) = {LastMax}
 BestWritten == (best # None) => (best = LastMax /\ \A j \in Rep : Score(res[j]) <= Score(res[best]))
 LoggedIsWritten == (logged # None) => logged = Score(res[best])
+\* the file holds the best result and nothing else, whatever was at that path before
+FileIsBest == (phase = "exit" /\ code = 0) => files.json = Content(res[best])
 \* the best of the first n replicas never decreases with n (given Deterministic, the replicas
 \* of a run with fewer replications are a prefix of this run's)
 PrefixMonotone == AllDone =>
@@ -185,7 +198,7 @@ PrefixMonotone == AllDone =>
       IN bestOf(n) <= bestOf(n + 1)
 
 \* C20, CLI clause
-ExitOK == phase = "exit" => \/ (code = 0 /\ files = {"json", "svg"} /\ fault = "none")
+ExitOK == phase = "exit" => \/ (code = 0 /\ files.names = {"json", "svg"} /\ fault = "none")
                             \/ (code # 0 /\ code # None /\ msg)
 Terminates == <>(phase = "exit")
 TypeOK == /\ phase \in {"map", "reduced", "logged", "json", "svg", "exit"}
